@@ -169,3 +169,18 @@ Theorem C13_v1_cont_agrees :
   forall ls, forallb no_cont ls = true -> pre_c ls = Some (pre ls).
 Proof. exact v1_cont_agrees. Qed.
 Print Assumptions C13_v1_cont_agrees.
+
+(* ---- Colang 1.0: the pending line comment (it becomes the `instructions` of the generate_value
+   action of `$var = ...`, so it belongs to what the file parses to).  A blank line anywhere -
+   also between the comment and its statement, or between two comment lines - changes neither
+   the statements nor the comment attached to each of them (continuation-free core). ---- *)
+Theorem C13_v1_layout_blank_comment :
+  forall a ws b, forallb is_wsc ws = true ->
+    map unnumbered_cm (pre_cm (a ++ ws :: b)) = map unnumbered_cm (pre_cm (a ++ b)).
+Proof. exact v1_blank_cm. Qed.
+Print Assumptions C13_v1_layout_blank_comment.
+
+Theorem C13_v1_comment_model_extends : forall ls, map fst (pre_cm ls) = pre ls.
+Proof. exact pre_cm_fst. Qed.
+Print Assumptions C13_v1_comment_model_extends.
+
